@@ -13,12 +13,12 @@ ASSUMPTIONS = ["padding bits of k-mer inputs are zero (C11 shows every writer pr
 
 def run(F, rep):
     rep.engines.update(["E2-BV", "E2-DT", "E1"])
-    common.kmer_floor(F, rep)
-    lemmas.ladder_lemmas(F, rep)
-    common.run_kmer_lemmas(F, rep, {"rc", "canon"})
-    lemmas.exts_lemmas(F, rep)
-    lemmas.lmer_lemmas(F, rep, which={"rc"})
-    dt_seq.slice_view_tables(F, rep, "C12.4")
-    lemmas.dnastring_lemmas(F, rep, which={"rc"})
+    rep.run(common.kmer_floor, F, rep)
+    rep.run(lemmas.ladder_lemmas, F, rep)
+    rep.run(common.run_kmer_lemmas, F, rep, {"rc", "canon"})
+    rep.run(lemmas.exts_lemmas, F, rep)
+    rep.run(lemmas.lmer_lemmas, F, rep, which={"rc"})
+    rep.run(dt_seq.slice_view_tables, F, rep, "C12.4")
+    rep.run(lemmas.dnastring_lemmas, F, rep, which={"rc"})
     # conversions of reverse-complemented views: slice.rc().to_owned() / bytes / renderings equal the substring's reverse complement
-    lemmas.slice_exact_lemmas(F, rep, "C12.6", quick=True)
+    rep.run(lemmas.slice_exact_lemmas, F, rep, "C12.6", quick=True)
